@@ -81,12 +81,12 @@ func (s *spyStore) tokMap(t *oidc.TokenResponse) map[string]any {
 		return map[string]any{"ex": false}
 	}
 	d := s.d
-	exp := int64(-1) // -1 = unknown (zero time)
-	if !t.AccessTokenExpiresAt.IsZero() {
+	exp, known := int64(0), !t.AccessTokenExpiresAt.IsZero()
+	if known {
 		exp = d.relSec(t.AccessTokenExpiresAt)
 	}
 	return map[string]any{"ex": true, "id": d.symTok("id", t.IDToken), "at": d.symTok("at", t.AccessToken),
-		"rt": d.symTok("rt", t.RefreshToken), "atExp": exp, "atExpNs": d.relNs(t.AccessTokenExpiresAt)}
+		"rt": d.symTok("rt", t.RefreshToken), "atExp": exp, "atExpKnown": known}
 }
 
 func (s *spyStore) authMap(a *oidc.AuthorizationState) map[string]any {
